@@ -156,6 +156,11 @@ func (x *Exec) model(fn *ssa.Function, name string) modelFn {
 		return x.strModel(func(a []*Term) *Term { return StrContains(a[0], a[1]) })
 	case "strings.Index":
 		return x.strModel(func(a []*Term) *Term { return StrIndexOf(a[0], a[1], IntLit(0)) })
+	case "strings.LastIndex":
+		// axiomatised: r is the start of the last occurrence of sep in s, -1 if there is none
+		return func(st *State, fr *Frame, fn *ssa.Function, args []*Val, pos token.Pos, cont retFn) {
+			cont(st, scalar(x.strLastIndex(st, args[0].T, args[1].T), types.Typ[types.Int]))
+		}
 	case "strings.TrimPrefix":
 		return x.strModel(func(a []*Term) *Term {
 			return Ite(StrPrefixOf(a[1], a[0]), StrSubstr(a[0], StrLen(a[1]), Sub(StrLen(a[0]), StrLen(a[1]))), a[0])
